@@ -216,7 +216,7 @@ func r8Base64(in []byte) string {
 	return string(out)
 }
 
-// VH_C08_SpecConformance: for versions 1b1/1b2/1b3, request URL from {short, 24 bytes, 256 bytes}, a response
+// VH_C08_SpecConformance: for versions 1b1/1b2/1b3, request URL from {short, 24 bytes, 256 bytes, upper-case scheme, '|' and empty fragment, non-ASCII, one arbitrary byte}, a response
 // header "X-Long" whose value length is from the CBOR length classes {0,1,24,256,40000} (quick) /
 // {0,1,23,24,255,256,32767,32768,65535,65536} (thorough) (symbolic content, long values with symbolic end bytes), an
 // optional second multi-valued mixed-case header, statuses {200,404}, method GET/HEAD, SYMBOLIC date and expires
@@ -227,7 +227,16 @@ func VH_C08_SpecConformance() {
 	vh.MustReach("b1", "b2", "b3")
 	ver := sxVersions[vh.Choose(3)]
 	url := "https://example.org/a"
-	switch vh.Choose(3) {
+	uc := vh.Choose(7)
+	switch uc {
+	case 3:
+		url = "HTTPS://example.org/Upper" // the signed message and the file carry the URL bytes AS GIVEN ...
+	case 4:
+		url = "https://example.org/a|b#" // ... not a re-serialisation of the parsed URL
+	case 5:
+		url = "https://example.org/caf\xc3\xa9?q=\xe2\x82\xac"
+	case 6:
+		url = "https://example.org/s" + vh.String("uc", 1) + "t" // any byte
 	case 1:
 		url = "https://example.org/xyz" // 23 bytes
 		url += "w"                      // 24 bytes
@@ -243,6 +252,7 @@ func VH_C08_SpecConformance() {
 		lens = []int{0, 1, 24, 256, 40000}
 	}
 	ln := lens[vh.Choose(len(lens))]
+	vh.Assume(uc < 3 || ln == 1) // the URL-fidelity variants run with one header-value length
 	var long string
 	if ln <= 256 {
 		long = vh.String("long", ln)
